@@ -34,8 +34,9 @@ Print Assumptions C10_index_range_covers.
 (* sparse_inv.  A schedule is any list of labels: one atomic step of goroutine k (reader, preload worker or
    WriteState caller), a new request handed to a goroutine (creating it if needed), or a restart of the process at
    any moment -- a kill of the running process included -- with any combination of {state file readable or not,
-   cache file kept / deleted / truncated or extended, preload}.  These are all the restarts the code can perform on
-   what it and such events left behind; NewSparseFile itself is one atomic step, and an external party REPLACING THE
+   cache file kept / deleted / truncated or extended, preload} -- successful, or FAILING after it replaced the state and
+   resized the cache file (LFailedStart; a start-up that fails before that has changed nothing and is no step).  These
+   are all the restarts the code can perform on what it and such events left behind; an external party REPLACING THE
    CONTENT of the cache or state file is not a label.  For EVERY schedule, every fault pattern of a sound store and
    any number of goroutines the loader invariant holds (or H collides): a set done bit or a null chunk means the range
    holds the chunk; the saved state never claims more than the cache file holds (start-up rewrites the state whenever
@@ -176,6 +177,20 @@ Example C10_stale_state_now :
   hd_error (s_log (ex_run stale_sched)) = Some (RqRead 0 7, ROk ex_blob false) /\
   s_saved (ex_run stale_sched) = Some [false; false; false; false].
 Proof. vm_compute. split; reflexivity. Qed.
+
+(* before the start-up reordering: a start-up that FAILED (init file missing or of the wrong length) had already brought
+   the re-created cache file to full size but not yet replaced the state: the next start adopted the old state over the
+   blank cache.  (Same schedule with LFailedStart instead of the first restart.) *)
+Definition failed_start_sched : list label :=
+  [LSubmit 0 (RqRead 0 7)] ++ T0x 12 ++ [LSubmit 0 (RqRead 0 7)] ++ T0x 12 ++ [LSubmit 0 RqSave; LThread 0] ++
+  [LFailedStart (mkmode true CAbsent true); LRestart (mkmode true CKeep false); LSubmit 0 (RqRead 0 7)] ++ T0x 12.
+Theorem C10_failed_start_refuted :
+  exists sched d eof, hd_error (s_log (pre_run true false ex_idx sched)) = Some (RqRead 0 7, ROk d eof) /\
+                      d <> slice ex_blob 0 7.
+Proof. exists failed_start_sched, [0; 0; 0; 0; 0; 0; 0]%N, false. vm_compute. split; [reflexivity|discriminate]. Qed.
+Example C10_failed_start_now :
+  hd_error (s_log (ex_run failed_start_sched)) = Some (RqRead 0 7, ROk ex_blob false).
+Proof. vm_compute. reflexivity. Qed.
 
 (* Two readers on the same range, the first parked between WriteAt and done.Set while the second arrives, a
    WriteState in between (the state must not yet contain the chunk), then a kill and a restart on cache + state:
